@@ -8,7 +8,7 @@ use crate::util::Rng;
 use std::cell::Cell;
 use std::future::Future;
 use std::pin::Pin;
-use std::sync::atomic::{AtomicBool, AtomicU64, AtomicU8, AtomicUsize, Ordering};
+use std::sync::atomic::{AtomicBool, AtomicPtr, AtomicU32, AtomicU64, AtomicU8, AtomicUsize, Ordering};
 use std::sync::{Arc, Mutex};
 use std::task::{Context, Poll, RawWaker, RawWakerVTable, Waker};
 use std::thread::Thread;
@@ -21,7 +21,20 @@ pub const DONE: u8 = 2;
 /// Per task control block. Lives in an `Arc<Run>` for the duration of one run
 /// (never static: a stale thread handle would make the harness itself lose
 /// wake-ups, see DESIGN §3.3 lesson 2).
+/// One of the four waker identities of a task. Every poll may hand the future a waker of the next generation
+/// (a different data pointer, so `will_wake` is false and the primitive has to replace the stored waker while
+/// other threads notify); a wake-up through a waker that is older than the one of the latest poll is *stale*:
+/// it is counted and ignored, exactly like an executor that dropped the old task handle would ignore it.
+pub struct GenSlot {
+    pub j: u32,
+    pub ctl: AtomicPtr<TaskCtl>,
+}
+
 pub struct TaskCtl {
+    pub slots: [GenSlot; 4],
+    /// generation of the waker handed to the latest poll
+    pub cur: AtomicU32,
+    pub stale_wakes: AtomicU64,
     pub token: AtomicBool,
     pub state: AtomicU8,
     pub thread: Mutex<Option<Thread>>,
@@ -44,6 +57,9 @@ impl Run {
         let mut tasks = Vec::with_capacity(n);
         for _ in 0..n {
             tasks.push(TaskCtl {
+                slots: [0u32, 1, 2, 3].map(|j| GenSlot { j, ctl: AtomicPtr::new(std::ptr::null_mut()) }),
+                cur: AtomicU32::new(0),
+                stale_wakes: AtomicU64::new(0),
                 token: AtomicBool::new(false),
                 state: AtomicU8::new(RUNNING),
                 thread: Mutex::new(None),
@@ -51,13 +67,19 @@ impl Run {
                 waiting_for: AtomicU64::new(0),
             });
         }
-        Arc::new(Run {
+        let run = Arc::new(Run {
             tasks,
             ops: AtomicU64::new(0),
             abort: AtomicBool::new(false),
             stamp: AtomicU64::new(1),
             sites: [const { AtomicU64::new(0) }; 16],
-        })
+        });
+        for t in &run.tasks {
+            for s in &t.slots {
+                s.ctl.store(t as *const TaskCtl as *mut TaskCtl, Ordering::Release);
+            }
+        }
+        run
     }
     /// One Relaxed counter stamps call and return events (it must not
     /// synchronise the threads it observes).
@@ -73,8 +95,14 @@ unsafe fn w_clone(p: *const ()) -> RawWaker {
     RawWaker::new(p, &VT)
 }
 unsafe fn w_wake(p: *const ()) {
-    let t = &*(p as *const TaskCtl);
+    let s = &*(p as *const GenSlot);
+    let t = &*(s.ctl.load(Ordering::Acquire) as *const TaskCtl);
     t.wakes.fetch_add(1, Ordering::Relaxed);
+    if t.cur.load(Ordering::Acquire) % 4 != s.j {
+        // not the waker of the latest poll
+        t.stale_wakes.fetch_add(1, Ordering::Relaxed);
+        return;
+    }
     t.token.store(true, Ordering::Release);
     if let Some(th) = t.thread.lock().unwrap().as_ref() {
         th.unpark();
@@ -82,9 +110,9 @@ unsafe fn w_wake(p: *const ()) {
 }
 unsafe fn w_drop(_p: *const ()) {}
 
-/// The waker of task `i` of this run. All wakers of one task compare equal.
-pub fn task_waker(run: &Arc<Run>, i: usize) -> Waker {
-    let p = &run.tasks[i] as *const TaskCtl as *const ();
+/// The waker of generation `gen` of task `i` of this run (generations that differ by a multiple of 4 compare equal).
+pub fn task_waker(run: &Arc<Run>, i: usize, gen: u32) -> Waker {
+    let p = &run.tasks[i].slots[(gen % 4) as usize] as *const GenSlot as *const ();
     // Safety: the Run outlives every future that stores the waker (joined before drop)
     unsafe { Waker::from_raw(RawWaker::new(p, &VT)) }
 }
@@ -184,6 +212,10 @@ pub enum Outcome<T> {
 pub enum Drive {
     /// wait for wake-ups until complete
     Block,
+    /// poll; if pending, yield `n` times and poll again *spuriously* with a new waker identity (the future
+    /// is still queued: the primitive must replace the stored waker while other threads notify), then
+    /// wait for wake-ups until complete. A wake-up that goes to the replaced waker strands the task.
+    Repoll(u32),
     /// poll once; if pending drop at once
     Once,
     /// poll; if pending, yield `n` times, re-poll (possibly spuriously), then drop
@@ -198,9 +230,25 @@ pub enum Drive {
 /// Drives a boxed future on task `i` (boxed: dropping really frees the node).
 pub fn drive<F: Future>(run: &Arc<Run>, i: usize, fut: F, how: Drive, waiting_for: u64) -> Outcome<F::Output> {
     let mut fut: Pin<Box<F>> = Box::pin(fut);
-    let w = task_waker(run, i);
-    let mut cx = Context::from_waker(&w);
     let ctl = &run.tasks[i];
+    // Half of the futures get a new waker identity at every poll (waker replacement under contention),
+    // the others keep one identity for their whole life (`will_wake` fast path).
+    let swapping = HOOK_RNG.with(|c| {
+        let mut v = c.get();
+        v ^= v << 13;
+        v ^= v >> 7;
+        v ^= v << 17;
+        c.set(v);
+        v & 1 == 0
+    });
+    let mut gen = ctl.cur.load(Ordering::Relaxed).wrapping_add(1);
+    ctl.cur.store(gen, Ordering::Release);
+    let mut first = true;
+    let mut spurious_left = match how {
+        Drive::Repoll(n) => n,
+        _ => 0,
+    };
+    let mut force_swap = false;
     let mut wakes_left = match how {
         Drive::Wakes(n) => n,
         _ => u32::MAX,
@@ -210,6 +258,13 @@ pub fn drive<F: Future>(run: &Arc<Run>, i: usize, fut: F, how: Drive, waiting_fo
         _ => 0,
     };
     loop {
+        if (swapping || force_swap) && !first {
+            gen = gen.wrapping_add(1);
+            ctl.cur.store(gen, Ordering::Release);
+        }
+        first = false;
+        let w = task_waker(run, i, gen);
+        let mut cx = Context::from_waker(&w);
         ctl.token.store(false, Ordering::Relaxed);
         if let Poll::Ready(v) = fut.as_mut().poll(&mut cx) {
             run.ops.fetch_add(1, Ordering::Relaxed);
@@ -222,6 +277,14 @@ pub fn drive<F: Future>(run: &Arc<Run>, i: usize, fut: F, how: Drive, waiting_fo
                     std::thread::yield_now();
                 }
                 return Outcome::Cancelled;
+            }
+            Drive::Repoll(_) if spurious_left > 0 => {
+                for _ in 0..spurious_left {
+                    std::thread::yield_now();
+                }
+                spurious_left = 0;
+                force_swap = true;
+                continue;
             }
             Drive::Yields(_) => {
                 if yields_left == 0 {
@@ -262,7 +325,8 @@ pub fn drive<F: Future>(run: &Arc<Run>, i: usize, fut: F, how: Drive, waiting_fo
 
 pub fn pick_drive(rng: &mut Rng) -> Drive {
     match rng.below(12) {
-        0..=4 => Drive::Block,
+        0..=2 => Drive::Block,
+        3 | 4 => Drive::Repoll(rng.below(3) as u32),
         5 => Drive::Once,
         6 | 7 => Drive::Yields(1 + rng.below(3) as u32),
         8 | 9 => Drive::Abandon(1 + rng.below(4) as u32),
